@@ -1,10 +1,10 @@
 """Sidecar contracts on the real functions of manoss96/pregex, keyed by qualified name (pure data: importable both by
 the verifier and by the run-time / bounded checker).  Clauses are python expressions over the parameters, `result`,
 and the spec functions of contracts/spec_helpers.py and pvc/specsym.py (symbolic) / pvc/specrt.py (concrete)."""
-from . import pre_core, pre_quant, pre_ops, pre_match, pre_groups, wrappers, classes_iv, classes_ctor, meta
+from . import pre_core, pre_quant, pre_ops, pre_match, pre_groups, wrappers, classes_iv, classes_ctor, meta, exc
 
 ALL = {}
-for _m in (pre_core, pre_quant, pre_ops, pre_match, pre_groups, wrappers, classes_iv, classes_ctor, meta):
+for _m in (pre_core, pre_quant, pre_ops, pre_match, pre_groups, wrappers, classes_iv, classes_ctor, meta, exc):
     ALL.update(_m.C)
 
 # A clause "the constructed instance has the TEXT of this chain of operations" (class forms, meta constructors) is stronger
